@@ -124,8 +124,6 @@ pub trait Flavour: 'static {
     fn e_accessors(e: &Self::Edge) -> Tri;
     fn e_reverse(e: &Self::Edge) -> Self::Edge;
     fn edge_eq(a: &Self::Edge, b: &Self::Edge) -> bool;
-    fn edge_cmp(a: &Self::Edge, b: &Self::Edge) -> Ordering;
-    fn edge_partial_cmp(a: &Self::Edge, b: &Self::Edge) -> Option<Ordering>;
     fn tri(e: &Self::Edge) -> Tri {
         (Self::key(Self::e_src(e)), Self::key(Self::e_dst(e)), Self::e_val(e))
     }
@@ -387,8 +385,6 @@ macro_rules! common_items {
         fn e_accessors(e: &Self::Edge) -> Tri { (*e.source().key(), *e.target().key(), *e.value()) }
         fn e_reverse(e: &Self::Edge) -> Self::Edge { e.reverse() }
         fn edge_eq(a: &Self::Edge, b: &Self::Edge) -> bool { a == b }
-        fn edge_cmp(a: &Self::Edge, b: &Self::Edge) -> Ordering { a.cmp(b) }
-        fn edge_partial_cmp(a: &Self::Edge, b: &Self::Edge) -> Option<Ordering> { a.partial_cmp(b) }
 
         fn g_new() -> Self::Graph { gdsl::$m::Graph::new() }
         fn g_default() -> Self::Graph { Default::default() }
